@@ -969,13 +969,13 @@ def _rename_fault_child(scn, root, rf, wfd):
     tr.emit(out)
 
 
-def observe_rename_fault(scn, timeout=20):
+def observe_rename_fault(scn, timeout=20, child=None, spec=None):
     """scn['rf'] = {'errno': name | None, 'second': None | {'k': i, 'mode': raise|kill|kill-after|partial-raise|partial-kill}}.
     Reference run (fault-free) and the faulted run on identical scratch directories; the faulted run in a forked
     child. Returns the records the child sent and the directory before / after."""
     import select
     import time
-    rf = scn['rf']
+    rf = spec if spec is not None else scn['rf']
     base = tempfile.mkdtemp(prefix='verif-c15rf-')
     try:
         ref_root, run_root = os.path.join(base, 'ref'), os.path.join(base, 'run')
@@ -994,7 +994,7 @@ def observe_rename_fault(scn, timeout=20):
             code = 3
             try:
                 os.close(r)
-                _rename_fault_child(scn, run_root, rf, w)
+                (child or _rename_fault_child)(scn, run_root, rf, w)
                 code = 0
             except BaseException:  # noqa: BLE001
                 code = 3
@@ -1045,3 +1045,182 @@ def observe_rename_fault(scn, timeout=20):
                 'same_inode': {rel: inodes_before[rel] == inodes_after.get(rel) for rel in before}}
     finally:
         shutil.rmtree(base, ignore_errors=True)
+
+
+# --------------------------------------------------------------------------
+# every call of the whole step as a fault point (family `stepfault`)
+# --------------------------------------------------------------------------
+# The fault plan is not a list written here: a first run of the step is TRACED (every public function of `os` and
+# `shutil`, `open` / `io.open`, whose arguments mention a path under the scratch root or a descriptor opened on such a
+# path), which yields [(function, ordinal)]; then one run per entry with the fault at exactly that call.
+
+STEP_FAULT_MODES = ('raise-perm', 'raise-os', 'kill')
+
+
+class StepFaultTracer(RenameFaultTracer):
+    """sf = {'at': None | {'name': qualified function, 'ord': n-th relevant call of that function, 'mode': …},
+    'probes': [source paths relative to the root]}"""
+
+    def __init__(self, root, sf, wfd):
+        super().__init__(root, sf, wfd)
+        self.sf = sf
+        self.at = sf.get('at')
+        self.per_name = {}
+        self.fds = set()
+        self.probes = [os.path.join(self.root, p) for p in sf.get('probes', [])]
+        self.real_realpath = os.path.realpath
+        self.depth = 0
+
+    def snap(self):
+        out = {}
+        for p in self.probes:
+            try:
+                with self.real_open(p, 'rb') as f:
+                    out[os.path.relpath(p, self.root)] = f.read().hex()
+            except OSError:
+                out[os.path.relpath(p, self.root)] = None
+        return out
+
+    def relevant(self, a, k):
+        for v in list(a) + list(k.values()):
+            if isinstance(v, bool):
+                continue
+            if isinstance(v, int):
+                if v in self.fds:
+                    return True
+            elif isinstance(v, (str, bytes, os.PathLike)):
+                try:
+                    s = os.fspath(v)
+                    if isinstance(s, bytes):
+                        s = os.fsdecode(s)
+                    if s != '' and self.inside(s):
+                        return True
+                except Exception:  # noqa: BLE001
+                    pass
+            elif hasattr(v, 'fileno') and not isinstance(v, type):
+                try:
+                    if v.fileno() in self.fds:
+                        return True
+                except Exception:  # noqa: BLE001
+                    pass
+        return False
+
+    def traced(self, name, real, a, k):
+        if not self.active:
+            return real(*a, **k)
+        self.active = False
+        try:
+            rel = self.relevant(a, k)
+        finally:
+            self.active = True
+        if not rel:
+            return real(*a, **k)
+        n = self.per_name.get(name, 0)
+        self.per_name[name] = n + 1
+        at = self.at
+        if at and not self.fired and at['name'] == name and at['ord'] == n:
+            self.fired = True
+            self.active = False
+            import sys
+            within, fr = [], sys._getframe(1)
+            while fr is not None:
+                if (os.sep + 'pypyr' + os.sep) in fr.f_code.co_filename and fr.f_code.co_name not in within:
+                    within.append(fr.f_code.co_name)
+                fr = fr.f_back
+            self.emit({'fault': at['mode'], 'call': name, 'ord': n, 'args': [repr(x)[:80] for x in a][:4], 'within': within[:8],
+                       'src': self.snap()})
+            if at['mode'] == 'kill':
+                self.real_exit(KILL_EXIT)
+            self.active = True
+            import errno as E
+            path = next((os.fspath(x) for x in a if isinstance(x, (str, bytes, os.PathLike))), None)
+            if at['mode'] == 'raise-perm':
+                raise PermissionError(E.EPERM, 'injected: Operation not permitted', path)
+            raise OSError(E.ENOSPC, 'injected: No space left on device', path)
+        try:
+            r = real(*a, **k)
+        except BaseException as e:  # noqa: BLE001
+            self.active = False
+            self.emit({'call': name, 'ord': n, 'failed': type(e).__name__, 'src': self.snap()})
+            self.active = True
+            raise
+        self.active = False
+        try:
+            if name in ('os.open', 'os.dup') and isinstance(r, int):
+                self.fds.add(r)
+            elif name == 'os.close' and a and isinstance(a[0], int):
+                self.fds.discard(a[0])
+            elif name == 'open' and hasattr(r, 'fileno'):
+                try:
+                    self.fds.add(r.fileno())
+                except Exception:  # noqa: BLE001
+                    pass
+            self.emit({'call': name, 'ord': n, 'src': self.snap()})
+        finally:
+            self.active = True
+        return r
+
+    def install(self):
+        import builtins
+        import types
+        tr = self
+
+        def patch(mod, name, val):
+            self.undo.append((mod, name, getattr(mod, name)))
+            setattr(mod, name, val)
+
+        def wrap(qual, real):
+            def w(*a, **k):
+                return tr.traced(qual, real, a, k)
+            w.__name__ = getattr(real, '__name__', qual)
+            w.__wrapped__ = real
+            return w
+        for mod, pre in ((os, 'os.'), (shutil, 'shutil.')):
+            for name, v in list(vars(mod).items()):
+                if name.startswith('_') or name in _RF_SKIP or not isinstance(v, (types.FunctionType, types.BuiltinFunctionType)):
+                    continue
+                patch(mod, name, wrap(pre + name, v))
+        xopen = wrap('open', self.real_open)
+        patch(builtins, 'open', xopen)
+        patch(io, 'open', xopen)
+        # names bound at import time (`from os import chown`, `move = shutil.move`) in the modules of the tree under test
+        import sys
+        by_id = {id(old): getattr(mod, name) for mod, name, old in self.undo}
+        for mname, m in list(sys.modules.items()):
+            if m is None or not (mname == 'pypyr' or mname.startswith('pypyr.')):
+                continue
+            for gname, gval in list(vars(m).items()):
+                if isinstance(gval, (types.FunctionType, types.BuiltinFunctionType)) and id(gval) in by_id:
+                    patch(m, gname, by_id[id(gval)])
+
+
+def _step_fault_child(scn, root, sf, wfd):
+    from pypyr.context import Context
+    mod = importlib.import_module(STEPS[scn['step']][0])
+    ctx = Context(build_context(scn, root, Bomb(), True))
+    if needs_cwd(scn):
+        os.chdir(os.path.join(root, scn.get('cwd') or ''))
+    dn = os.open(os.devnull, os.O_WRONLY)
+    os.dup2(dn, 1)
+    os.dup2(dn, 2)
+    tr = StepFaultTracer(root, sf, wfd)
+    tr.install()
+    tr.active = True
+    try:
+        try:
+            mod.run_step(ctx)
+            out = {'end': 'ok'}
+        except Exception as e:  # noqa: BLE001
+            out = {'end': 'raised', 'exc': type(e).__name__, 'errno': getattr(e, 'errno', None), 'msg': str(e)[:120]}
+        except BaseException as e:  # noqa: BLE001
+            out = {'end': 'raised', 'exc': type(e).__name__, 'base': True}
+    finally:
+        tr.uninstall()
+    out['fired'] = tr.fired
+    tr.emit(out)
+
+
+def observe_step_fault(scn, timeout=20):
+    """scn['sf'] = {'at': None (trace only) | {'name', 'ord', 'mode'}}; the probes are the matched sources"""
+    sf = dict(scn.get('sf') or {}, probes=list(scn['matched']))
+    return observe_rename_fault(scn, timeout=timeout, child=_step_fault_child, spec=sf)
